@@ -397,6 +397,15 @@ pub fn run_one(p: &Program, tmpl: &(Image, BTreeMap<String, Vec<u8>>), prefix: &
         sched::run_schedule(&dir, bodies, prefix, if p.vis == 1 { sched::visible_with_staging } else { sched::visible_default }, &mut monitor, Duration::from_secs(20))
     };
     drop(cas_m);
+    let has_cleanup = p.threads.iter().flatten().any(|o| o.is_cleanup());
+    // "clean-up never removes a blob that is referenced or that a concurrent put of the same content is committing" (C08)
+    if has_cleanup {
+        for f in step_findings.iter_mut() {
+            if f.0.contains(&"C04") {
+                f.0.push("C08");
+            }
+        }
+    }
     findings.extend(step_findings);
     let h = hist.lock().unwrap().clone();
     if verbose {
@@ -439,7 +448,7 @@ pub fn run_one(p: &Program, tmpl: &(Image, BTreeMap<String, Vec<u8>>), prefix: &
                 }
             }
             if let Some(d) = read_fail {
-                findings.push((vec!["C04", "C05"], "final-read-failed".into(), d));
+                findings.push((if has_cleanup { vec!["C04", "C05", "C08"] } else { vec!["C04", "C05"] }, "final-read-failed".into(), d));
             }
             let any_failed = h.iter().any(|r| matches!(r.res, Res::Err(_)));
             for r in &h {
@@ -484,7 +493,7 @@ pub fn run_one(p: &Program, tmpl: &(Image, BTreeMap<String, Vec<u8>>), prefix: &
                 let fin = format!("{label}|{}", Image::load(&dir).summary());
                 let fresh = seen_final.insert(fin);
                 if fresh { match real::open_cas::<K>(&dir, &p.cfg.config()) {
-                    Err(e) => findings.push((vec!["C04", "C02"], "reopen-after-schedule-failed".into(), e)),
+                    Err(e) => findings.push((if has_cleanup { vec!["C04", "C02", "C08"] } else { vec!["C04", "C02"] }, "reopen-after-schedule-failed".into(), e)),
                     Ok(c2) => {
                         let mut fr = Vec::new();
                         real::check_reads(&c2, &model, &[0, 1], &mut fr);
